@@ -290,3 +290,11 @@ Example ex_trace :
              (seq 0 (S (length ex_sched))))
   = [0; 1; 2; 3].
 Proof. vm_compute. reflexivity. Qed.
+
+Theorem marks_upper_segment : stmt_marks_upper_segment.
+Proof.
+  intros progs sched y n i j Hm Hij.
+  destruct (Inv12_reach progs sched) as [_ HJ]. fold y in HJ.
+  exact (l_seg _ (j_l _ HJ) n i j Hm Hij).
+Qed.
+Print Assumptions marks_upper_segment.
